@@ -109,9 +109,19 @@ def run_property(prop_id, cfg, tier, seed):
         groups.setdefault(key, []).append(v)
     reported = []; known_hit = {}; replay_fail = []
     binary = None
+    replayed_per_finding = {}; unknown_groups = 0
     for key, vs in sorted(groups.items()):
         v = next((x for x in vs if x["inputs"] is not None), vs[0])
         kf = next((f for f in known if finding_matches(f, prop_id, v)), None)
+        if kf is not None:
+            if replayed_per_finding.get(kf["id"], 0) >= 3:
+                continue      # further instances of a listed finding: matched by (check, tags); three instances were replayed
+            replayed_per_finding[kf["id"]] = replayed_per_finding.get(kf["id"], 0) + 1
+        else:
+            unknown_groups += 1
+            if unknown_groups > 40: 
+                replay_fail.append("more than 40 distinct unlisted violations; remaining ones not replayed") if unknown_groups == 41 else None
+                continue
         if binary is None:
             try:
                 binary, _ = build.build_native(built["crate"])
